@@ -238,6 +238,10 @@ def jit_method_family(cases):
           ks = m.apply({}, jnp.zeros((2,)), rngs={'noise': jax.random.key(c['seed'])})
           runs.append([[int(a) for a in np.asarray(k).reshape(-1)] for k in ks])
         res['jit' if use_jit else 'plain'] = runs
+      # the same nn.jit program evaluated eagerly: what the keys are when no trace is ever re-used
+      with jax.disable_jit():
+        ks = build(True).apply({}, jnp.zeros((2,)), rngs={'noise': jax.random.key(c['seed'])})
+        res['jit_disabled'] = [[int(a) for a in np.asarray(k).reshape(-1)] for k in ks]
       out.append({'ok': res})
     except Exception as e:  # pylint: disable=broad-except
       import traceback
